@@ -80,11 +80,23 @@ def run_case(case):
         if isinstance(s, Decl) and isinstance(s.e, Ref):
             alias_of[s.name] = s.e.name
 
+    # a member selected from a bundle is that member's own wire: every name bound to the same selection is one more
+    # name of one value (the statement's "aliases of one value under several names"), with or without optimisation
+    sel_key = {}
+    for s in prog.stmts:
+        if isinstance(s, Decl) and isinstance(s.e, lang.BSel) and isinstance(s.e.b, Ref) and isinstance(s.e.ty, str):
+            sel_key[s.name] = (s.e.b.name, s.e.ty)
+
     def alias_group(n):
         root = n
         while root in alias_of:
             root = alias_of[root]
-        return {m for m in decl_line if (lambda x: (x == root) or _root(x) == root)(m)}
+        grp = {m for m in decl_line if (lambda x: (x == root) or _root(x) == root)(m)}
+        keys = {(_root(b), t) for m in grp if m in sel_key for b, t in [sel_key[m]]}
+        if keys:
+            same = {m for m, (b, t) in sel_key.items() if (_root(b), t) in keys}
+            grp |= {m for m in decl_line if _root(m) in same or m in same}
+        return grp
 
     def _root(x):
         while x in alias_of:
@@ -133,6 +145,13 @@ def run_case(case):
         e = resolved(e)
         while isinstance(e, lang.Paren):
             e = e.e
+        for _ in range(20):  # an alias of a name denotes that name's defining expression
+            if isinstance(e, Ref) and e.name in decl_of and e.name not in input_names and not isinstance(decl_of[e.name].e, lang.Num):
+                e = resolved(decl_of[e.name].e)
+                while isinstance(e, lang.Paren):
+                    e = e.e
+            else:
+                break
         if isinstance(e, lang.Cond) and isinstance(e.v, lang.Num) and e.v.v == 1:
             c = e.c
             while isinstance(c, lang.Paren):
